@@ -81,6 +81,9 @@ def vb_other(font, g):
 
 def run(chk):
     quick = chk.tier == "quick"
+    from . import solidfill_check
+
+    solidfill_check.run(chk)    # the attribute rule every solid fill and COLRv0 layer goes through
     chk.rule = (
         "ColrToSvg.tla: every paint graph over {ColrLayers, Glyph, Transform tokens, group-opacity Composite, "
         "ColrGlyph, solid, gradient} to depth 3 (thorough 4) model-checked; each built into a real COLRv1 font (tokens "
